@@ -145,3 +145,17 @@ Proof.
   split; [vm_compute; reflexivity|].
   intros H. inversion H as [| e r Hin _]. subst. cbn in Hin. exact Hin.
 Qed.
+
+(* keys at the edge of their range are keys like any other: identifier 0, header id 0 (both falsy in Python),
+   a header id cleared and set again during the history *)
+Example C10_example_edge_keys :
+  snd (run_log init_world
+         [NewMatrix; AddFrame 0 0 false 1 (Some 0) false; AddFrame 0 0 true 2 None true;
+          FrameByHeaderId 0 0; FrameById 0 0 false; FrameById 0 0 true; FrameByPgn 0 0;
+          SetHeaderId 0 0 None; FrameByHeaderId 0 0;
+          SetHeaderId 0 1 (Some 0); FrameByHeaderId 0 0]) =
+    [RUnit; RFound (Some 0); RFound (Some 1);
+     RFound (Some 0); RFound (Some 0); RFound (Some 1); RFound (Some 1);
+     RUnit; RFound None;
+     RUnit; RFound (Some 1)].
+Proof. vm_compute. reflexivity. Qed.
